@@ -251,7 +251,7 @@ theorem kfdLP_congr (a b : FlowInput) (hbase : a.base = b.base) (hs : a.starts =
 
 /-! ## node mode = edge mode on the explicit expansion -/
 
-theorem kfdNodeInternal_ok {inp : NodeFlowInput} {fi : FlowInput} (h : kfdNodeInternal inp = .ok fi) :
+theorem kfdNodeTranslate_ok {inp : NodeFlowInput} {fi : FlowInput} (h : kfdNodeTranslate inp = .ok fi) :
     ∃ cons ign, expandConstraints inp.ng.g inp.constraints = .ok cons ∧
       inp.ignoreNodes.mapM (expandedNode inp.ng.g) = .ok ign ∧
       inp.ng.g.nodes ≠ [] ∧ (∀ c ∈ cons, c ≠ []) ∧
@@ -261,7 +261,7 @@ theorem kfdNodeInternal_ok {inp : NodeFlowInput} {fi : FlowInput} (h : kfdNodeIn
              cfg := { k := inp.k, allowEmpty := inp.allowEmpty, constraints := cons,
                       coverage := inp.coverage, coverageLength := inp.coverageLength,
                       lengths := expandLengths inp.ng } } := by
-  unfold kfdNodeInternal at h
+  unfold kfdNodeTranslate at h
   by_cases hn : inp.ng.g.nodes.isEmpty = true
   · rw [if_pos hn] at h; exact nomatch h
   · rw [if_neg hn] at h
@@ -282,6 +282,38 @@ theorem kfdNodeInternal_ok {inp : NodeFlowInput} {fi : FlowInput} (h : kfdNodeIn
             apply he
             exact List.any_eq_true.2 ⟨c, hcm, by simp [h0]⟩
 
+theorem kfdEdgeChecks_ok {fi fi' : FlowInput} (h : kfdEdgeChecks fi = .ok fi') :
+    fi' = fi ∧ fi.activeEdges ≠ [] ∧ fi.cfg.k ≠ 0 := by
+  unfold kfdEdgeChecks at h
+  by_cases ha : fi.activeEdges.isEmpty = true
+  · rw [if_pos ha] at h; exact nomatch h
+  · rw [if_neg ha] at h
+    by_cases hk : fi.cfg.k = 0
+    · rw [if_pos hk] at h; exact nomatch h
+    · rw [if_neg hk] at h
+      exact ⟨(Except.ok.inj h).symm, fun h0 => ha (by simp [h0]), hk⟩
+
+theorem kfdEdgeChecks_accepts (fi : FlowInput) (ha : fi.activeEdges ≠ []) (hk : fi.cfg.k ≠ 0) :
+    kfdEdgeChecks fi = .ok fi := by
+  unfold kfdEdgeChecks
+  have h1 : ¬ (fi.activeEdges.isEmpty = true) := fun h => ha (List.isEmpty_iff.1 h)
+  rw [if_neg h1, if_neg hk]
+
+theorem kfdNodeInternal_of_translate {inp : NodeFlowInput} {fi : FlowInput}
+    (ht : kfdNodeTranslate inp = .ok fi) : kfdNodeInternal inp = kfdEdgeChecks fi := by
+  unfold kfdNodeInternal; rw [ht]
+
+theorem kfdNodeInternal_ok {inp : NodeFlowInput} {fi : FlowInput} (h : kfdNodeInternal inp = .ok fi) :
+    kfdNodeTranslate inp = .ok fi ∧ fi.activeEdges ≠ [] ∧ fi.cfg.k ≠ 0 := by
+  unfold kfdNodeInternal at h
+  cases ht : kfdNodeTranslate inp with
+  | error e => rw [ht] at h; exact nomatch h
+  | ok fi0 =>
+    rw [ht] at h
+    obtain ⟨h1, h2, h3⟩ := kfdEdgeChecks_ok h
+    subst h1
+    exact ⟨rfl, h2, h3⟩
+
 theorem node_mode_is_edge_mode_on_expansion (inp : NodeFlowInput) (lp : LP) (hc : Closed inp.ng.g)
     (hef : ∀ p ∈ inp.ng.edgeFlow, p.1 ∈ inp.ng.g.edges) (h : kfdNodeLP inp = .ok lp) :
     lp = kfdLP (expandInput inp) := by
@@ -292,7 +324,7 @@ theorem node_mode_is_edge_mode_on_expansion (inp : NodeFlowInput) (lp : LP) (hc 
     rw [hfi] at h
     have hlp : kfdLP fi = lp := Except.ok.inj h
     rw [← hlp]
-    obtain ⟨cons, ign, hcons, hign, _, _, rfl⟩ := kfdNodeInternal_ok hfi
+    obtain ⟨cons, ign, hcons, hign, _, _, rfl⟩ := kfdNodeTranslate_ok (kfdNodeInternal_ok hfi).1
     obtain ⟨hign1, _⟩ := mapM_expandedNode_ok hign
     have hcons' := expandConstraints_ok hcons
     subst hign1 hcons'
@@ -332,10 +364,18 @@ theorem node_mode_is_edge_mode_on_expansion (inp : NodeFlowInput) (lp : LP) (hc 
       rw [List.lookup_append, lookup_map_none edgeEdge _ _ hnot]
       simp
 
-/-- sufficient conditions under which the node branch accepts its input (node-form constraints) -/
-theorem node_mode_accepts (inp : NodeFlowInput) (l : List (List Node)) (hcs : inp.constraints = .nodes l)
+/-- the translation step accepts every input with at least one node, known ignored nodes and non-empty
+node constraints over known nodes, and returns the record below -/
+theorem node_translate_accepts (inp : NodeFlowInput) (l : List (List Node)) (hcs : inp.constraints = .nodes l)
     (hn : inp.ng.g.nodes ≠ []) (hl : ∀ c ∈ l, c ≠ [] ∧ ∀ v ∈ c, v ∈ inp.ng.g.nodes)
-    (hi : ∀ v ∈ inp.ignoreNodes, v ∈ inp.ng.g.nodes) : ∃ lp, kfdNodeLP inp = .ok lp := by
+    (hi : ∀ v ∈ inp.ignoreNodes, v ∈ inp.ng.g.nodes) :
+    kfdNodeTranslate inp = .ok
+      { base := expandGraph inp.ng.g, flow := expandFlow inp.ng,
+        ignore := (edgesToIgnore inp.ng ++ inp.ignoreNodes.map nodeEdge).eraseDups, starts := [], ends := [],
+        weightInt := inp.weightInt,
+        cfg := { k := inp.k, allowEmpty := inp.allowEmpty, constraints := l.map (·.map nodeEdge),
+                 coverage := inp.coverage, coverageLength := inp.coverageLength,
+                 lengths := expandLengths inp.ng } } := by
   have h1 : inp.ignoreNodes.mapM (expandedNode inp.ng.g) = .ok (inp.ignoreNodes.map nodeEdge) :=
     mapM_except_ok _ _ _ (fun v hv => expandedNode_of_mem (hi v hv))
   have h2 : expandConstraints inp.ng.g (.nodes l) = .ok (l.map (·.map nodeEdge)) := by
@@ -358,9 +398,76 @@ theorem node_mode_accepts (inp : NodeFlowInput) (l : List (List Node)) (hcs : in
     cases hb : inp.ng.g.nodes.isEmpty with
     | false => rfl
     | true => exact absurd (List.isEmpty_iff.1 hb) hn
-  unfold kfdNodeLP kfdNodeInternal
+  unfold kfdNodeTranslate
   rw [hcs, h2, h1]
   simp only [h3, h4]
+  rfl
+
+/-- a node that carries the attribute and is not ignored by the caller gives an active edge of the
+internal record (so "All edges are ignored" is not raised) -/
+theorem nodeEdge_active (ng : NodeGraph) (hc : Closed ng.g) (ignoreNodes : List Node) (fi : FlowInput)
+    (hb : fi.base = expandGraph ng.g) (hs : fi.starts = []) (he : fi.ends = [])
+    (hig : fi.ignore = (edgesToIgnore ng ++ ignoreNodes.map nodeEdge).eraseDups)
+    (v : Node) (hv : v ∈ ng.g.nodes) (hf : ng.hasFlow v = true) (hni : v ∉ ignoreNodes) :
+    nodeEdge v ∈ fi.activeEdges := by
+  have hwf := expansion_wf ng.g hc
+  unfold FlowInput.activeEdges
+  apply List.mem_filter.2
+  constructor
+  · unfold FlowInput.st
+    rw [hb, hs, he]
+    exact (aug_mem_edges hwf.closed).2 (Or.inl (nodeEdge_mem_expand hv))
+  · have h1 : fi.st.sourceSinkEdges.contains (nodeEdge v) = false := by
+      cases hcn : fi.st.sourceSinkEdges.contains (nodeEdge v) with
+      | false => rfl
+      | true =>
+        exfalso
+        have hm : nodeEdge v ∈ fi.st.sourceSinkEdges := List.contains_iff_mem.1 hcn
+        unfold STGraph.sourceSinkEdges STGraph.sourceEdges STGraph.sinkEdges Graph.outEdges Graph.inEdges at hm
+        rcases List.mem_append.1 hm with hm | hm
+        · have := (List.mem_filter.1 hm).2
+          have h' : n0 v = srcName := by simpa [nodeEdge, FlowInput.st, augment] using this
+          exact (src_not_expanded v).1 h'.symm
+        · have := (List.mem_filter.1 hm).2
+          have h' : n1 v = snkName := by simpa [nodeEdge, FlowInput.st, augment] using this
+          exact (snk_not_expanded v).2 h'.symm
+    have h2 : fi.ignore.contains (nodeEdge v) = false := by
+      cases hcn : fi.ignore.contains (nodeEdge v) with
+      | false => rfl
+      | true =>
+        exfalso
+        have hm : nodeEdge v ∈ fi.ignore := List.contains_iff_mem.1 hcn
+        rw [hig, List.mem_eraseDups, List.mem_append, edgesToIgnore_exact ng hc] at hm
+        rcases hm with (⟨e, _, hx⟩ | ⟨w, _, hw, hx⟩) | hm
+        · exact nodeEdge_ne_edgeEdge _ _ hx
+        · rw [nodeEdge_inj hx] at hf; rw [hf] at hw; exact nomatch hw
+        · obtain ⟨w, hw, hx⟩ := List.mem_map.1 hm
+          exact hni (nodeEdge_inj hx ▸ hw)
+    unfold FlowInput.ignored
+    rw [h1, h2]; rfl
+
+/-- sufficient conditions under which node mode accepts its input (node-form constraints): at least one
+node carries the attribute and is not ignored, `k > 0`, ignored nodes and constraint nodes are known,
+constraints are non-empty -/
+theorem node_mode_accepts (inp : NodeFlowInput) (l : List (List Node)) (hcs : inp.constraints = .nodes l)
+    (hc : Closed inp.ng.g) (hk : inp.k ≠ 0)
+    (hact : ∃ v ∈ inp.ng.g.nodes, inp.ng.hasFlow v = true ∧ v ∉ inp.ignoreNodes)
+    (hl : ∀ c ∈ l, c ≠ [] ∧ ∀ v ∈ c, v ∈ inp.ng.g.nodes)
+    (hi : ∀ v ∈ inp.ignoreNodes, v ∈ inp.ng.g.nodes) : ∃ lp, kfdNodeLP inp = .ok lp := by
+  obtain ⟨v, hv, hf, hni⟩ := hact
+  have hn : inp.ng.g.nodes ≠ [] := List.ne_nil_of_mem hv
+  have ht := node_translate_accepts inp l hcs hn hl hi
+  have ha := nodeEdge_active inp.ng hc inp.ignoreNodes (v := v) (hb := rfl) (hs := rfl) (he := rfl) (hig := rfl)
+    (hv := hv) (hf := hf) (hni := hni)
+    (fi := { base := expandGraph inp.ng.g, flow := expandFlow inp.ng,
+             ignore := (edgesToIgnore inp.ng ++ inp.ignoreNodes.map nodeEdge).eraseDups, starts := [], ends := [],
+             weightInt := inp.weightInt,
+             cfg := { k := inp.k, allowEmpty := inp.allowEmpty, constraints := l.map (·.map nodeEdge),
+                      coverage := inp.coverage, coverageLength := inp.coverageLength,
+                      lengths := expandLengths inp.ng } })
+  have hck := kfdEdgeChecks_accepts _ (List.ne_nil_of_mem ha) hk
+  unfold kfdNodeLP
+  rw [kfdNodeInternal_of_translate ht, hck]
   exact ⟨_, rfl⟩
 
 /-! ## elements read back; decoded paths of the DAG k-models condense to routes of the caller's graph -/
